@@ -113,6 +113,8 @@ pub fn run(cfg: &Cfg, rep: &mut Report) {
                 }
                 dev.clear();
                 let mut resp: Vec<u8> = Vec::new();
+                // message-available as the interface would report it: must not influence dispatch
+                c.mav = rng.chance(1, 3);
                 let r = built.root().run(&msg, &mut dev, &mut c, &mut resp);
                 let got = dev.invocations();
                 ctx.add("invocations.observed", got.len() as u64);
